@@ -40,5 +40,7 @@ G_WaitBlockedInSend == ~(\E c \in Clients : pc[c] = "blocked" /\ creg[c].t = "wa
 G_TwoClears         == ~(\E c, d \in Clients : c # d /\ pc[c] = "clr_stop" /\ pc[d] \in {"clr_stop", "clr_drain", "clr_policy", "clr_store", "clr_fin"})
 G_DelDuringVictims  == ~(apc = "victims" /\ \E c \in Clients : pc[c] = "del_send" /\ creg[c].h = Head(areg.victims))
 G_SetDuringSweepDel == ~(apc \in {"sweep_poldel", "sweep_storedel"} /\ \E c \in Clients : pc[c] = "set_send" /\ creg[c].h = areg.item.h)
+G_SetDuringClear    == ~(\E c \in Clients : pc[c] \in {"clr_store", "clr_fin"} /\ (\A d \in Clients \ {c} : pc[d] = "idle")
+                          /\ ops <= 3 /\ \E i \in DOMAIN buf : buf[i].t = "new")
 G_RaiseCost         == ~(raised /\ used > maxCost)
 =============================================================================
